@@ -1,6 +1,6 @@
 #!/bin/bash
-# usage: tools_mut.sh <prop> <file> <sed-expr>   -- apply a mutation to /repo, run quick check, revert
-prop=$1; file=$2; expr=$3
+# usage: tools_mut.sh <prop> <file> <sed-expr> [scenario]  -- apply a mutation to /repo, run quick check, revert
+prop=$1; file=$2; expr=$3; scen=$4
 cd /repo && sed -i "$expr" "$file" && if git diff --quiet; then echo "MUTATION DID NOT APPLY"; exit 3; fi
-cd /verif && ./bin/vcheck $prop 2>&1 | grep -E "^(violation|VIOLATION|C[0-9]+ tier|INTERNAL|ERROR)" | head -6
+cd /verif && VERIF_SCENARIO=$scen ./bin/vcheck $prop 2>&1 | grep -E "^(violation|VIOLATION|C[0-9]+ tier|INTERNAL|ERROR)" | head -6
 git -C /repo checkout -- .
